@@ -399,9 +399,16 @@ pub unsafe extern "C" fn public_key_serialize(
     }
     let kp = kp.unwrap();
 
+    let bytes = kp.0.to_bytes();
+    if bytes.len() != 32 {
+        // a compressed secp256r1 key has 33 bytes: it does not fit the documented buffer
+        update_last_error(Error::InvalidArgument);
+        return 0;
+    }
+
     let output_slice = std::slice::from_raw_parts_mut(buffer_ptr, 32);
 
-    output_slice.copy_from_slice(&kp.0.to_bytes()[..]);
+    output_slice.copy_from_slice(&bytes[..]);
     32
 }
 
